@@ -116,7 +116,7 @@ GYM_CTOR_SEEDS = (0, 1)
 DM_CTOR_KEYS: Tuple[Optional[int], ...] = (None, 1)  # None: documented default PRNGKey(0); 1: PRNGKey(1)
 
 BOUNDS = {  # history length bound per tier
-    "quick": dict(gym=4, dm=5, fresh=3),
+    "quick": dict(gym=4, dm=5, fresh=2),
     "thorough": dict(gym=5, dm=7, fresh=8),
 }
 
@@ -806,11 +806,15 @@ def run_config(family: str, index: int, tier: str, seed: int, model: str = "") -
                 break
         states += g_pref
         ck.count("histories", g_pref)
-    # genuinely new adapter objects
+    # genuinely new adapter objects (which histories: rotated by VERIF_SEED; their operations are
+    # counted apart so that the coverage counters do not depend on the seed)
+    ops0, vac0 = ck.ops, dict(ck.vac)
     for j, h in enumerate(_rotate(g_hist, seed + 1, b["fresh"])):
         s = GYM_CTOR_SEEDS[j % len(GYM_CTOR_SEEDS)]
         ck.run_gym(new_gym(env, s), s, h)
         validated += 1
+    fresh_ops = ck.ops - ops0
+    ck.ops, ck.vac = ops0, vac0
     res["gym_histories_maximal"] = len(g_hist) * len(GYM_CTOR_SEEDS)
 
     # ---- dm_env
@@ -838,11 +842,15 @@ def run_config(family: str, index: int, tier: str, seed: int, model: str = "") -
                 break
         states += d_pref
         ck.count("histories", d_pref)
+    ops0, vac0 = ck.ops, dict(ck.vac)
     for j, h in enumerate(_rotate(d_hist, seed + 1, b["fresh"])):
         k = DM_CTOR_KEYS[j % len(DM_CTOR_KEYS)]
         ad = new_dm(env, k)
         ck.run_dm(ad, k, h, ad.observation_spec())
         validated += 1
+    fresh_ops += ck.ops - ops0
+    ck.ops, ck.vac = ops0, vac0
+    res["fresh_adapter_operations"] = fresh_ops
     res["dm_histories_maximal"] = len(d_hist) * len(DM_CTOR_KEYS)
 
     # samples: one concrete gym history with the reference's view of it
